@@ -121,6 +121,10 @@ func verifSetupPass(o verifPassOpts) *verifPass {
 		if o.taskDeleting && vz.Bool("task.deleting") {
 			ts := metav1.NewTime(vz.InstantNear("task.deletionTimestamp"))
 			t.DeletionTS = &ts
+			// as PodTask.GetState: a task that is being deleted and has not finished is Killing
+			if t.Ref.FinishTimestamp.IsZero() {
+				t.Ref.Status.State = execution.TaskKilling
+			}
 		}
 		r.task = t
 		p.te.Cache = append(p.te.Cache, t)
@@ -258,6 +262,22 @@ func VerifH_C08_create() {
 		taskMayFinish: true, taskMayRun: vz.Thorough(), createOutcomes: 2,
 	})
 	p.verifCheckCreates()
+}
+
+// VerifH_C08_killing: the recorded tasks may be in the middle of being deleted
+// (deletionTimestamp set, not finished: state Killing) or have finished since:
+// an attempt that is still alive blocks the next one, whatever its state is called.
+func VerifH_C08_killing() {
+	p := verifSetupPass(verifPassOpts{
+		job:           verifJobOpts{maxRefs: 2, parallel: 1, started: 1, maxAttemptsHi: 3, inv8: true, concreteTimes: true, oneResult: true, noRunning: true, killingRefs: true},
+		taskMayFinish: true, taskDeleting: true, createOutcomes: 1,
+	})
+	p.verifCheckCreates()
+	for _, r := range p.j.refs {
+		if r.task != nil && !r.task.DeletionTS.IsZero() && r.task.Ref.FinishTimestamp.IsZero() {
+			vz.Cover("task-being-deleted")
+		}
+	}
 }
 
 // VerifH_C08_blocked: no task is created for a Job that is not started, is being
